@@ -618,7 +618,7 @@ def model_check(cases):
         for j, (cfg, opt, rs, ob, st, cl) in enumerate(part):
             body.append("Definition c%d := explain_op %s %s %s %s %s %s." % (j, cfg, st, cl, opt, rs, ob))
         body.append("Eval vm_compute in [%s]." % "; ".join("c%d" % j for j in range(len(part))))
-        ok, vals, raw = driver.coq_eval("c14_cases_%d" % (k // B), ["Word", "IoOp"], "\n".join(body) + "\n", timeout=900)
+        ok, vals, raw = driver.coq_eval("c14_cases_%d" % (k // B), ["Word", "IoOp"], "\n".join(body) + "\n", timeout=300)
         if not ok or len(vals) != 1:
             res += [None] * len(part)
             raw_all += raw
